@@ -15,6 +15,7 @@ import numpy as np
 import common
 from common import Case, Failure
 import onetime_common as oc
+import onetime_sessions as OS
 
 PID = 'C14'
 LEAN_TARGETS = ['Nitime.Props.C14']
@@ -23,7 +24,8 @@ RULE = ('classes with set_input x 1-4 settings x 4 input kinds x pre-read subset
         'every public result; distinct = distinct protocol line + input kind; non-trivial = at least one result read before the switch')
 ASSUMPTIONS = ['a newly constructed analyzer of the same class with the same constructor arguments is the reference',
                'results that raise on the newly constructed analyzer are compared by exception kind']
-TRUSTED_EXTRA = ['harness/translate_c13.py (init-derived state, reset shape, set_input overrides: assumed to recompute what __init__ computes)',
+TRUSTED_EXTRA = ['harness/onetime_server.py: a forked child of a process that has only imported nitime stands for a fresh python process',
+                 'harness/translate_c13.py (init-derived state, reset shape, set_input overrides: assumed to recompute what __init__ computes)',
                  'F, W, D (getter bodies, written values, state derived in __init__) are uninterpreted in the model']
 
 KINDS = {1: 'same-shape', 2: 'other-length', 3: 'other-rate', 4: 'other-channel-count'}
@@ -104,7 +106,8 @@ def experiments(seed, tier, rng):
         pub = [g for g in table['getters'] if not g.startswith('_')]
         obj0, _ = build(0)
         cfg = oc.cfg_of(obj0, table)
-        presets = [[]] + [[g] for g in pub] + [list(pub)]
+        light = (cls, label) in oc.LIGHT and tier != 'thorough'
+        presets = [[]] + [[g] for g in (rng.sample(pub, min(2, len(pub))) if light else pub)] + [list(pub)]
         if tier == 'thorough':
             for _ in range(10):
                 presets.append([g for g in pub if rng.random() < 0.5])
@@ -114,13 +117,17 @@ def experiments(seed, tier, rng):
             another is only visible when the reader comes before the writer)"""
             out = [list(pub)]
             if len(pre) == len(pub):
-                for g in pub[1:]:
+                for g in (pub[1:3] if light else pub[1:]):
                     out.append([g] + [h for h in pub if h != g])
             else:
                 out.append(list(reversed(pub)))
             return out
-        for variant in (1, 2, 3, 4):
-            for pre in presets:
+        for variant in ((2, 3) if light else (1, 2, 3, 4)):
+            for pi, pre in enumerate(presets):
+              # quick tier: a single pre-read result meets two of the four kinds of new input (alternating, so that
+              # every kind meets about half of the results); none / all pre-read meet all four
+              if tier != 'thorough' and len(pre) == 1 and len(pub) > 1 and (variant + pi) % 2:
+                  continue
               for post in orders(pre):
                 def make(build=build):
                     return build(0)[0]
@@ -268,6 +275,10 @@ def cases(rng, tier, seed):
                         meta={'i': i, 'surv': surv, 'stale': stale, 'reads': reads, 'cls': sw.cls, 'label': sw.label,
                               'pre': sw.pre, 'tag': sw.keytag, 'kind': sw.kind},
                         nontrivial=bool(sw.pre)))
+    # PROCESS-level sessions (each in its own fresh process, judged against fresh objects in other fresh processes):
+    # base / derived / user / sibling objects re-targeted and reset in every order; two analyzers built with
+    # method=None / own / one shared dict on inputs of different rates and then re-targeted
+    out += OS.build_cases(PID, 'c14', seed, tier, rng)
     return out
 
 
@@ -293,91 +304,129 @@ def oracle(rng, tier, seed, focus, cases):
     n = 0
     for c in cases:
         m = c.meta
+        if not m or 'session' in m:
+            continue
         n += len(m['reads'])
         for key, what in judge(m):
             fails.append(Failure(key, what, {'i': m['i'], 'line': c.line, 'tag': m['tag'], 'cls': m['cls'], 'label': m['label'],
                                              'pre': m['pre'], 'key': key, 'seed': seed, 'tier': tier}, case=c))
     own = own_onetime_experiments()
     fails += own
-    return fails, {'switches': len(cases), 'reads_compared': n, 'own_onetime_subclass_experiments': OWN_N[0],
-                   'distinct_failure_keys': sorted({f.key for f in fails})}
+    sf, sstats = OS.oracle_sessions(PID, seed, tier, cases)
+    fails += sf
+    return fails, dict({'switches': len(cases), 'reads_compared': n, 'own_onetime_subclass_experiments': OWN_N[0],
+                        'distinct_failure_keys': sorted({f.key for f in fails})}, **sstats)
 
 
 OWN_N = [0]
 
 
-def own_onetime_experiments(only=None):
-    """user subclasses that define their OWN one-time results, re-targeted / reset / sliced after an instance of an
-    ancestor class has been through the same operation (and in the opposite order): nothing computed for the previous
-    state may survive, whatever other objects were reset before (a per-class memo of resettable names inherited from
-    an ancestor would be wrong exactly here)"""
+OWN_BASES = {'CoherenceAnalyzer': {}, 'SpectralAnalyzer': {}, 'NormalizationAnalyzer': {}, 'CorrelationAnalyzer': {}, 'MTCoherenceAnalyzer': {},
+             'HilbertAnalyzer': {}, 'GrangerAnalyzer': {'order': 2, 'n_freqs': 16}, 'SNRAnalyzer': {}, 'MorletWaveletAnalyzer': {'freqs': [0.1, 0.2]},
+             'SparseCoherenceAnalyzer': {'ij': [(0, 1), (1, 2)]}}
+OWN_ORDERS = ('ancestor-first', 'subclass-first', 'base-analyzer-first', 'mixin-first')
+
+
+def own_keys():
+    ks = []
+    for b in OWN_BASES:
+        for order in OWN_ORDERS:
+            for opn in ('set_input', 'reset'):
+                ks.append('own-onetime/%s/stale-after-%s/%s' % (b, opn, order))
+    for order in ('ancestor-first', 'subclass-first', 'mixin-first'):
+        ks.append('own-onetime/Epochs/stale-after-slice/%s' % order)
+    return ks
+
+
+def own_one(key):
+    """ONE experiment, run in a fresh process (harness/onetime_server.py): a user subclass that defines its OWN one-time
+    result, re-targeted / reset / sliced after an instance of an ancestor class (its direct base, a bare BaseAnalyzer,
+    a bare ResetMixin) has been through the same operation, or before: nothing computed for the previous state may
+    survive.  The expected values are computed here from the data.  -> [[key, what]]"""
     import nitime.descriptors as desc
     import nitime.analysis as na
     import nitime.timeseries as ts
-    fails = []
-    OWN_N[0] = 0
+    from nitime.analysis.base import BaseAnalyzer
+    out = []
+    _, base_name, opn, order = key.split('/')
+    opn = opn[len('stale-after-'):]
     rs = np.random.RandomState(5)
     x1 = ts.TimeSeries(rs.randn(3, 128), sampling_rate=10.0)
     x2 = ts.TimeSeries(rs.randn(3, 96) * 2 + 1, sampling_rate=20.0)
-    for base_name in ('CoherenceAnalyzer', 'SpectralAnalyzer', 'NormalizationAnalyzer', 'CorrelationAnalyzer', 'MTCoherenceAnalyzer'):
+    if base_name != 'Epochs':
         base = getattr(na, base_name)
-        for order in ('ancestor-first', 'subclass-first'):
-            for opn in ('set_input', 'reset'):
-                key = 'own-onetime/%s/stale-after-%s/%s' % (base_name, opn, order)
-                if only is not None and key != only:
-                    continue
-                def total(self):
-                    return float(np.sum(self.input.data)) + float(getattr(self, 'bias', 0.0))
-                Sub = type('Own' + base_name, (base,), {'total': desc.setattr_on_read(total)})
-                try:
-                    def run_ancestor():
-                        a = base(x1)
-                        a.set_input(x2) if opn == 'set_input' else a.reset()
-                    if order == 'ancestor-first':
-                        run_ancestor()
-                    s_ = Sub(x1)
-                    _ = s_.total
-                    if 'total' not in s_.__dict__:
-                        fails.append(Failure(key + '/not-memoised', 'the one-time result was not stored on first read', {'own': key, 'key': key}))
-                    if opn == 'set_input':
-                        s_.set_input(x2)
-                        want = float(np.sum(x2.data))
-                    else:
-                        s_.reset()
-                        s_.bias = 3.5
-                        want = float(np.sum(x1.data)) + 3.5
-                    got = s_.total
-                    OWN_N[0] += 1
-                    if got != want:
-                        fails.append(Failure(key, 'a user subclass of %s with its own one-time result kept the value computed before %s (%s: an ancestor instance went through %s %s): got %r, a new object gives %r' % (
-                            base_name, opn, order, opn, 'before' if order == 'ancestor-first' else 'after nothing', got, want), {'own': key, 'key': key}))
-                except Exception as e:  # noqa
-                    fails.append(Failure(key + '/raises', '%s: %r' % (key, e), {'own': key, 'key': key}))
-    # Epochs subclass with its own memoised result, sliced after a plain Epochs was sliced
-    for order in ('ancestor-first', 'subclass-first'):
-        key = 'own-onetime/Epochs/stale-after-slice/%s' % order
-        if only is not None and key != only:
-            continue
-        def midpoint(self):
-            return np.asarray(self.start) + np.asarray(self.duration) // 2
-        SubE = type('OwnEpochs', (ts.Epochs,), {'midpoint': desc.setattr_on_read(midpoint)})
-        st = np.arange(0.0, 60.0, 10.0)
-        if order == 'ancestor-first':
-            e0 = ts.Epochs(st, duration=np.full(6, 4.0))
-            _ = e0.duration
-            _ = e0[1:3].duration
-        e = SubE(st, duration=np.full(6, 4.0))
-        _ = e.midpoint
-        sl = e[2:5]
-        OWN_N[0] += 1
-        want = np.asarray(sl.start) + np.asarray(sl.stop - sl.start) // 2
-        got = np.asarray(sl.midpoint)
-        if got.shape != want.shape or not np.array_equal(got, want):
-            fails.append(Failure(key, 'a slice of an Epochs subclass kept the parent\'s memoised result (%s)' % order, {'own': key, 'key': key}))
+        kw = OWN_BASES[base_name]
+
+        def total(self):
+            x = self.__dict__.get('input')      # (GrangerAnalyzer keeps no `input` before set_input)
+            return float(np.sum(x.data if x is not None else self.data)) + float(getattr(self, 'bias', 0.0))
+        Sub = type('Own' + base_name, (base,), {'total': desc.setattr_on_read(total)})
+        try:
+            with oc.quiet():
+                if order == 'ancestor-first':
+                    a = base(x1, **copy.deepcopy(kw))
+                    a.set_input(x2) if opn == 'set_input' else a.reset()
+                elif order == 'base-analyzer-first':
+                    a = BaseAnalyzer(x1)
+                    a.set_input(x2) if opn == 'set_input' else a.reset()
+                elif order == 'mixin-first':
+                    desc.ResetMixin().reset()
+                s_ = Sub(x1, **copy.deepcopy(kw))
+                _ = s_.total
+                if 'total' not in s_.__dict__:
+                    out.append([key + '/not-memoised', 'the one-time result was not stored on first read'])
+                if opn == 'set_input':
+                    s_.set_input(x2)
+                    want = float(np.sum(x2.data))
+                else:
+                    s_.reset()
+                    s_.bias = 3.5
+                    want = float(np.sum(x1.data)) + 3.5
+                got = s_.total
+            if got != want:
+                out.append([key, 'a user subclass of %s with its own one-time result kept the value computed before %s (%s): got %r, a new object gives %r' % (
+                    base_name, opn, order, got, want)])
+        except Exception as e:  # noqa
+            out.append([key + '/raises', '%s: %r' % (key, e)])
+        return out
+
+    def midpoint(self):
+        return np.asarray(self.start) + np.asarray(self.duration) // 2
+    SubE = type('OwnEpochs', (ts.Epochs,), {'midpoint': desc.setattr_on_read(midpoint)})
+    st = np.arange(0.0, 60.0, 10.0)
+    if order == 'ancestor-first':
+        e0 = ts.Epochs(st, duration=np.full(6, 4.0))
+        _ = e0.duration
+        _ = e0[1:3].duration
+    elif order == 'mixin-first':
+        desc.ResetMixin().reset()
+    e = SubE(st, duration=np.full(6, 4.0))
+    _ = e.midpoint
+    _ = e.duration
+    sl = e[2:5]
+    want = np.asarray(sl.start) + np.asarray(sl.stop - sl.start) // 2
+    got = np.asarray(sl.midpoint)
+    if got.shape != want.shape or not np.array_equal(got, want):
+        out.append([key, 'a slice of an Epochs subclass kept the parent\'s memoised result (%s)' % order])
+    if len(sl.duration) != 3:
+        out.append([key, 'a slice of an Epochs subclass kept the parent\'s duration (%s)' % order])
+    return out
+
+
+def own_onetime_experiments(only=None):
+    keys = [k for k in own_keys() if only is None or k == only or only.startswith(k + '/')]
+    ans = OS.ask_many([{'kind': 'call', 'module': 'c14', 'func': 'own_one', 'args': [k]} for k in keys])
+    OWN_N[0] = len(keys)
+    fails = []
+    for a in ans:
+        for key, what in a['result']:
+            fails.append(Failure(key, what, {'own': key, 'key': key}))
     return fails
 
 
 def replay(d):
+    if d.get('session'):
+        return OS.replay_session(d)
     if d.get('own'):
         fs = own_onetime_experiments(only=d['own'])
         return fs[0] if fs else None
